@@ -24,6 +24,7 @@ def quorum_len_gate(prog, body, ev, block):
     """block dominated by the true edge of confirmed_replicas.len() >= rf/2+1 ?"""
     seen = []
     ok = False
+    quorum.set_prog(prog)
     for c in comparisons(prog, body, ev):
         nz = quorum.normalise(c["op"], c["a"], c["b"])
         if nz is None:
